@@ -232,6 +232,10 @@ def compile_tfel_check(ck):
                        flags=["-c"], includes=inc, std="gnu++20", defines=TC_DEFINES, opt="-O0")
 
 
+def check_text(cmds):
+    return "".join('@Command "sh %s.sh"%s;\n' % (k, "{shall_fail: true}" if f else "") for k, f in cmds)
+
+
 def build_tfel_check(ck, built, objs):
     """tfel-check.cxx and TestLauncher.cxx of the current tree, linked with the process/signal managers compiled from
     the tree for the first harness (objects given first: they take precedence over the prebuilt shared libraries)"""
@@ -263,9 +267,12 @@ def tfel_check_layer(ck, rng, built, objs):
         for t in range(ntests):
             n = rng.choice([1, 1, 2, 3])
             kinds = [rng.choice(list(TC_KINDS)) if rng.random() < 0.55 else rng.choice(["ok", "slow0"]) for _ in range(n)]
-            tests["t%d" % t] = kinds
+            # `shall_fail: true` on some of the commands that do fail: the failure is then the expected outcome
+            # (on a command that succeeds the option changes nothing in this tree: not generated)
+            sf = [TC_KINDS[k][1] != "e0" and rng.random() < 0.3 for k in kinds]
+            tests["t%d" % t] = list(zip(kinds, sf))
             with open(os.path.join(d, "t%d.check" % t), "w") as f:
-                f.write("".join('@Command "sh %s.sh";\n' % k for k in kinds))
+                f.write(check_text(zip(kinds, sf)))
         import subprocess
         try:
             p = ck.run([binary, "--jobs=%d" % jobs] + ["t%d.check" % t for t in range(ntests)], cwd=d, timeout=240)
@@ -286,34 +293,36 @@ def tfel_check_layer(ck, rng, built, objs):
         log = strip(open(os.path.join(d, "tfel-check.log")).read()) if os.path.exists(os.path.join(d, "tfel-check.log")) else ""
         stats["suites"] += 1
         all_ok = True
-        for name, kinds in tests.items():
+        for name, cmds in tests.items():
             stats["tests"] += 1
-            want_test = all(TC_KINDS[k][1] == "e0" for k in kinds)
+            kinds = [k for k, _ in cmds]
+            want_test = all(TC_KINDS[k][1] == "e0" or f for k, f in cmds)
             all_ok = all_ok and want_test
             m = re.search(r"\* end of test '\./%s\.check'\s*\[\s*(SUCCESS|FAILED)\]" % name, log)
             got_test = m.group(1) if m else "missing"
             cl = os.path.join(d, name + ".checklog")
             clog = strip(open(cl).read()) if os.path.exists(cl) else ""
             rep = {"site": "tfel-check/src/TestLauncher.cxx, tfel-check/src/tfel-check.cxx", "jobs": jobs,
-                   "check_file": "".join('@Command "sh %s.sh";\n' % k for k in kinds),
+                   "check_file": check_text(cmds),
                    "scripts": {k + ".sh": TC_KINDS[k][0] for k in kinds}, "test_verdict": got_test,
                    "test_log": clog[-1500:], "tfel_check_exit_status": p.returncode}
-            for i, k in enumerate(kinds, 1):
+            for i, (k, shall_fail) in enumerate(cmds, 1):
                 stats["commands"] += 1
-                stats["kinds"][k] = stats["kinds"].get(k, 0) + 1
+                stats["kinds"][k + ("+shall_fail" if shall_fail else "")] = stats["kinds"].get(k + ("+shall_fail" if shall_fail else ""), 0) + 1
                 truth = TC_KINDS[k][1]
                 mm = re.search(r"%s:Exec-%d\s*\[\s*(SUCCESS|FAILED)\]\s*\n Command was : sh %s\.sh\n(?: Message : (.*)\n)?" % (name, i, k), clog)
                 got = mm.group(1) if mm else "missing"
                 msg = (mm.group(2) or "") if mm else ""
                 bad = None
-                if got != ("SUCCESS" if truth == "e0" else "FAILED"):
-                    bad = "verdict %s" % got
+                if got != ("SUCCESS" if (truth == "e0" or shall_fail) else "FAILED"):
+                    bad = "verdict %s%s" % (got, " although the failure is declared with shall_fail" if shall_fail else "")
                 elif truth[0] == "e" and truth != "e0" and ("exited abnormally with value %s" % truth[1:]) not in msg:
                     bad = "message `%s` does not report the exit value %s" % (msg, truth[1:])
                 elif truth[0] == "s" and "signal" not in msg:
                     bad = "message `%s` does not report the signal death" % msg
                 if bad:
-                    key = "tfel-check/src/TestLauncher.cxx:command-verdict:%s" % ("exit0" if truth == "e0" else ("exit-n" if truth[0] == "e" else "signal"))
+                    key = "tfel-check/src/TestLauncher.cxx:command-verdict:%s%s" % (
+                        "exit0" if truth == "e0" else ("exit-n" if truth[0] == "e" else "signal"), ":shall_fail" if shall_fail else "")
                     if key not in reported:
                         reported.add(key)
                         ck.violation(key, "tfel-check --jobs=%d, test %s, command %d (`%s`, which %s): %s" % (
